@@ -561,7 +561,9 @@ def encodeDop : (fuel : Nat) → Dop → PVal → EncM Unit
         let iv ← methodP2I m (.int tc)
         match iv with
         | .int internal => do                                     -- `int(…)`
-          if !(dtcs.any fun d => d.1 == internal) then odxraise .encode   -- "Unknown diagnostic trouble code"
+          -- fix c03-dtc-dop-encoder-compares-coded-value: the described DTCs are compared with the PHYSICAL trouble code
+          -- (as in the decoder), not with the coded value
+          if !(dtcs.any fun d => d.1 == tc) then odxraise .encode          -- "Unknown diagnostic trouble code"
           encodeDct dct (.int internal)
         | _ => raise .unmodelled
 
